@@ -26,7 +26,9 @@ n_c1 == <<1>>  n_bs == <<92>>  n_x == <<120>>  n_y == <<121>>  n_k == <<107>>
 S(str) == Str(str)
 Ints(n) == Arr([i \in 1..n |-> IntV(i - 1)])
 
-SpecialNames == <<n_ee, n_emo, n_sq, n_dq, n_abs, n_anb, n_and, n_sp, n_ab_, n_tld, n_sl, n_true, n_c1, n_bs, n_e, n_1, n_t1, n_at1b, n_t0, n_big, n_del, n_aemo, n_bsdq, n_nilx, n_inx, n_orx, n_andx, n_notx, n_truex, n_Nonex, n_containsx, n_andemo, n_oremo, n_1ar2, n_us, n_pct, n_A, n_m0, n_vt, n_lfend, n_ecomb, n_dash, n_p1, n_aplusb>>
+\* names that differ only in a run of blanks, a name that begins with a blank, names that read as format directives
+n_xy1 == <<120, 32, 121>>  n_xy2 == <<120, 32, 32, 121>>  n_lsp == <<32, 97>>  n_pd == <<37, 100>>  n_pp == <<37, 37>>
+SpecialNames == <<n_ee, n_emo, n_sq, n_dq, n_abs, n_anb, n_and, n_sp, n_ab_, n_tld, n_sl, n_true, n_c1, n_bs, n_e, n_1, n_t1, n_at1b, n_t0, n_big, n_del, n_aemo, n_bsdq, n_nilx, n_inx, n_orx, n_andx, n_notx, n_truex, n_Nonex, n_containsx, n_andemo, n_oremo, n_1ar2, n_us, n_pct, n_A, n_m0, n_vt, n_lfend, n_ecomb, n_dash, n_p1, n_aplusb, n_xy1, n_xy2, n_lsp>>
 
 DocSeq == <<
   Ints(0), Ints(1), Ints(2), Ints(3), Ints(4), Ints(5), Ints(6),
@@ -43,7 +45,9 @@ DocSeq == <<
   Obj(<<n_b, n_a>>, <<Arr(<<Obj(<<n_ee>>, <<Arr(<<IntV(0)>>)>>)>>), Obj(<<n_abs, n_a>>, <<Obj(<<n_sq>>, <<Null>>), S(n_a)>>)>>),
   Arr(<<Arr(<<Arr(<<IntV(1)>>)>>), Obj(<<n_a>>, <<Arr(<<Obj(<<n_a>>, <<Arr(<<>>)>>)>>)>>)>>),
   \* equal elements at several positions of one array (and a boolean / number look-alike between them)
-  Arr(<<IntV(1), IntV(2), IntV(1), Bool(TRUE), IntV(2), Arr(<<>>), Null, Arr(<<>>), Null>>)
+  Arr(<<IntV(1), IntV(2), IntV(1), Bool(TRUE), IntV(2), Arr(<<>>), Null, Arr(<<>>), Null>>),
+  \* containers below members whose names read as format directives or begin with a blank (the locations below them carry those names)
+  Obj(<<n_pd, n_pp, n_lsp>>, <<Arr(<<IntV(1), Obj(<<n_pp>>, <<IntV(2)>>)>>), Obj(<<n_a>>, <<IntV(3)>>), Arr(<<IntV(4)>>)>>)
 >>
 
 \* per-document node table: every node's location
